@@ -90,7 +90,8 @@ func (c *compiler) compile(o interface{}) error {
 		p := o.(Meta).Parent()
 		if !x.IsConfigSet() {
 			x.setConfig(c.inheritConfig(p))
-		} else if x.Config() && !p.(HasConfig).Config() {
+		} else if hp, hasConfig := p.(HasConfig); x.Config() && hasConfig && !hp.Config() {
+			// a parent without config (rpc input/output, notification) ignores the statement
 			return fmt.Errorf("%s - config cannot be true when parent config is false", SchemaPath(o.(Meta)))
 		}
 	}
